@@ -21,6 +21,7 @@ type CEnv struct {
 	cur   *State
 	old   *State
 	pre   *State // loop invariants: the state at loop entry (before the loop's havoc)
+	iter  *State // step clauses: the state at the start of the current iteration
 	pkg   string
 	guard Term
 	depth int
@@ -238,6 +239,11 @@ func (c *CEnv) selectField(xv TT, f string) (TT, error) {
 		if !ok {
 			return TT{}, fmt.Errorf("field %s of pointer to non-struct %s", f, t)
 		}
+		if e.isElemPtrType(p.Elem()) {
+			a := e.elemAddr(xv.Term, p.Elem())
+			sv := TT{e.load(c.cur, a), p.Elem()}
+			return c.selectField(sv, f)
+		}
 		for i := 0; i < st.NumFields(); i++ {
 			if st.Field(i).Name() == f {
 				key, fs, ft := e.fieldKey(p.Elem(), i)
@@ -403,6 +409,14 @@ func (c *CEnv) evalCall(n *CCall) (TT, error) {
 			return TT{}, err
 		}
 		return c.sub(c.old).eval(n.Args[0])
+	case "iter":
+		if err := argN(1); err != nil {
+			return TT{}, err
+		}
+		if c.iter == nil {
+			return TT{}, fmt.Errorf("iter() is only meaningful in step clauses")
+		}
+		return c.sub(c.iter).eval(n.Args[0])
 	case "pre":
 		if err := argN(1); err != nil {
 			return TT{}, err
@@ -487,6 +501,29 @@ func (c *CEnv) evalCall(n *CCall) (TT, error) {
 			}
 		}
 		return TT{}, fmt.Errorf("addr(): no field %s", selx.F)
+	case "eaddr":
+		// eaddr(s, i): the address &s[i] of an element of slice s (element pointer)
+		if err := argN(2); err != nil {
+			return TT{}, err
+		}
+		sv, err := c.eval(n.Args[0])
+		if err != nil {
+			return TT{}, err
+		}
+		iv, err := c.eval(n.Args[1])
+		if err != nil {
+			return TT{}, err
+		}
+		sl, ok := sv.T.Underlying().(*types.Slice)
+		if sv.T == nil || !ok {
+			return TT{}, fmt.Errorf("eaddr() of non-slice")
+		}
+		e.declare("(declare-fun eptr (Int Int) Int)")
+		e.declare("(declare-fun eptr_arr (Int) Int)")
+		e.declare("(declare-fun eptr_idx (Int) Int)")
+		p := T(SInt, "(eptr (s_arr %s) (+ (s_off %s) %s))", sv.S, sv.S, iv.S)
+		e.assume(tTrue, T(SBool, "(and (> %s 0) (= (eptr_arr %s) (s_arr %s)) (= (eptr_idx %s) (+ (s_off %s) %s)))", p.S, p.S, sv.S, p.S, sv.S, iv.S))
+		return TT{p, types.NewPointer(sl.Elem())}, nil
 	case "arr":
 		// the backing array of a slice as a value
 		x, err := c.eval(n.Args[0])
